@@ -137,6 +137,17 @@ fn structs() -> Vec<StructD> {
             has_steps: true,
             obs_fn: "obs_wide",
         },
+        StructD {
+            ty: "Odd",
+            exec_kind: Kind::U16,
+            stacks: vec![
+                StackD { method: "num", kind: Kind::Int, input_show: |s| format!("Num({s})") },
+                StackD { method: "words", kind: Kind::Str, input_show: |s| format!("Word({s:?})") },
+            ],
+            has_inputs: true,
+            has_steps: true,
+            obs_fn: "obs_odd",
+        },
     ]
 }
 
